@@ -119,20 +119,20 @@ PROPS = {
         title='x86-64 JIT-compiled code computes the same result as the interpreter',
         parts=[
             Part('wfwitness', lambda h: True, lambda h, c, info=None: True, 'vacuity guard (native, exhaustive over the opcodes): the opcode-specific precondition of every per-opcode harness is satisfiable'),
-            Part('jit', lambda h: h.startswith('arm_') or h in ('resolve_jumps_contract', 'epilogue_contract', 'map_register_contract') or h.startswith('prologue_'),
-                 lambda h, c, info=None: 'ensures:' in desc(c) or (in_file(c, 'src/jit.rs') and kani.is_panic_check(c)) or 'instruction fetch outside' in desc(c),
-                 'per opcode: the bytes the real encoders emit (whole jit.rs compiled verbatim) are decoded and executed by the x86-64 subset semantics from an arbitrary machine state and equal spec_step through the register map: registers, next pc (recorded jump targets), data access, rsp/packet-base preserved; prologue, epilogue and resolve_jumps contracts'),
+            Part('jit', lambda h: h.startswith('arm_') or h.startswith('enc_') or h in ('resolve_jumps_contract', 'epilogue_contract', 'map_register_contract') or h.startswith('prologue_'),
+                 lambda h, c, info=None: 'ensures:' in desc(c) or 'requires:' in desc(c) or 'machinery:' in desc(c) or (in_file(c, 'src/jit.rs') and kani.is_panic_check(c)) or 'instruction fetch outside' in desc(c),
+                 'per opcode: the bytes the real encoders emit (whole jit.rs compiled verbatim) are decoded and executed by the x86-64 subset semantics from an arbitrary machine state and equal spec_step through the register map: registers, next pc (recorded jump targets), data access, rsp/packet-base preserved; prologue, epilogue and resolve_jumps contracts.  The 12 mul/div/mod arms (emit_muldivmod, up to 16 x86 instructions) are proved modularly: enc_* = each instruction-level encoder against its contract (an abstract instruction, harness/jit/abs.rs), arm_*_sem_d<k> = the real arm with those encoders replaced by their contracts (Kani stubs), per destination register, arm_*_emit = the two compilation passes with the real encoders'),
         ],
-        level_text='Both engines are proved equal to the same executable ISA spec (interpreter: C01; JIT: this check), per instruction and for all operands/registers/displacements/program counters; whole-program simulation over pc_locs/resolve_jumps is a paper lemma. Quick tier leaves the 12 mul/div/mod arms (emit_muldivmod) to the thorough tier.',
-        assumptions=['quick tier: emit_muldivmod arms (mul/div/mod, 32/64, imm/reg) are NOT run (10-15 min each under CBMC); thorough tier runs them',
+        level_text='Both engines are proved equal to the same executable ISA spec (interpreter: C01; JIT: this check), per instruction and for all operands/registers/displacements/program counters; whole-program simulation over pc_locs/resolve_jumps is a paper lemma. The mul/div/mod arms are proved callee-by-contract in the quick tier and additionally end to end (10-15 min each) in the thorough tier.',
+        assumptions=['emit_muldivmod arms, quick tier: modular proof (encoder contracts + arm over the contracts); the end-to-end byte-level harness of these 12 arms runs in the thorough tier only',
                      'ld_abs/ld_ind: immediate >= 0 (the JIT uses a signed disp32, the interpreter an unsigned add)'],
     ),
     'C12': dict(
         title='Compiling any verified program returns Ok or Err and never panics or overruns',
         parts=[
             Part('wfwitness', lambda h: True, lambda h, c, info=None: True, 'vacuity guard (native, exhaustive over the opcodes): the opcode-specific precondition of every per-opcode harness is satisfiable'),
-            Part('jit', lambda h: h.startswith('arm_') or h in ('resolve_jumps_contract', 'map_register_contract', 'epilogue_contract', 'two_pass_same_arguments', 'jit_memory_new_nostd') or h.startswith('prologue_'),
-                 lambda h, c, info=None: (in_file(c, 'src/jit.rs') and kani.is_panic_check(c)) or 'same arguments' in desc(c) or 'counting pass' in desc(c) or 'is refused' in desc(c) or 'suitable memory' in desc(c) or (in_file(c, 'src/shadow.rs') and ('shadow Vec' in desc(c) or 'index out of bounds: the len' in desc(c)))
+            Part('jit', lambda h: h.startswith('arm_') or h.startswith('enc_') or h in ('resolve_jumps_contract', 'map_register_contract', 'epilogue_contract', 'two_pass_same_arguments', 'jit_memory_new_nostd') or h.startswith('prologue_') or h.startswith('jit_memory_size_'),
+                 lambda h, c, info=None: (in_file(c, 'src/jit.rs') and kani.is_panic_check(c)) or 'same arguments' in desc(c) or 'counting pass' in desc(c) or 'is refused' in desc(c) or 'suitable memory' in desc(c) or 'executable buffer is at least' in desc(c) or 'whole number of pages' in desc(c) or 'uses that same size' in desc(c) or (in_file(c, 'src/shadow.rs') and ('shadow Vec' in desc(c) or 'index out of bounds: the len' in desc(c)))
                  or any(k in desc(c) for k in ('counting pass sizes', 'emitted bytes stay inside', 'fails only for an unregistered', 'both passes agree', 'pc_locs[pc]', 'resolve_jumps succeeds', 'pc_locs indexed', 'no other byte changes', 'rel32 =',
                                              'call target is pc+1+imm', 'next pc equals spec_step', 'every rel32 placeholder is recorded')),
                  'per opcode: no panic in the arm / encoders / map_register under the verifier facts; the counting pass (write_enabled = false) advances offset exactly like the emission pass (so the buffer sized by pass 1 fits pass 2 and the emit_bytes! assert is unreachable); compile error only for an unregistered helper; resolve_jumps indexes pc_locs in range and touches only the 4 displacement bytes'),
@@ -144,7 +144,7 @@ PROPS = {
         level_text='Proof per instruction for the x86-64 JIT; repeatability = the emitted bytes are a function of (instruction, pc, helper address), which is what the C03 obligations state. Cranelift part: not covered (see not-claimed note).',
         assumptions=['Cranelift: block discipline beyond 3-instruction shapes is not explored (bounded); define_function / finalize_definitions themselves are Cranelift code (trusted)',
                      'JitMemory::new: page rounding, allocation and mprotect are not executed by the verifier',
-                     'quick tier: emit_muldivmod arms run in the thorough tier only'],
+                     'emit_muldivmod arms, quick tier: the two passes with the real encoders (arm_*_emit) plus the modular semantic proof; the end-to-end byte-level harness runs in the thorough tier only'],
     ),
     'C04': dict(
         title='Cranelift-compiled code computes the same result as the interpreter',
